@@ -11,16 +11,20 @@ def claims(TRUST):
             "file is closed only after both checks. writeAndCloseFile routes every CAS upload through one of the two, with the declared hash and size; diskCache.Put indexes an entry only after that succeeded "
             "(commit call-site obligations, nothing adopted on any error return, every error is a *cache.Error, exact guard on size/hash form); SizedLRU.Add leaves an accepted entry present. "
             "grpcServer.BatchUpdateBlobs: a response carries status OK only for a digest whose Put(CAS, declared hash, declared size) returned nil (loop invariant over all responses, ghost set of acknowledged digests) - "
-            "the obligations that exposed two genuine defects fixed in /repo (wrong declared size acknowledged; unsupported compressor acknowledged).",
+            "the obligations that exposed two genuine defects fixed in /repo (wrong declared size acknowledged; unsupported compressor acknowledged)."
+            " Also: grpcServer.UpdateActionResult stores inlined output files, stdout and stderr under their stated digests in the CAS; grpcServer.fetchItem (Remote Asset) stores and acknowledges a blob under the digest pinned by the client "
+            "whenever one is given; the ByteStream writer goroutine and the HTTP handler pass the declared digest and size to the cache.",
             TRUST + "ASSUMED: io.ReadFull / hash.Hash / hex / io.MultiWriter behave as documented (stated as contracts over abstract byte streams); sync.Pool hands out an unshared 1 MiB buffer; the zstd codec. "
-            "NOT under contract yet: HTTP PUT, ByteStream.Write, SpliceBlob, UpdateActionResult inlining, FetchBlob front ends (they all end in diskCache.Put, which is), decompression of zstd uploads, cgo zstd.",
+            "NOT decided: SpliceBlob, zstd decompression of uploads in the front ends (HTTP, ByteStream, BatchUpdateBlobs), what the ByteStream handler reports to the client (channel traffic), cgo zstd; every front end ends in diskCache.Put, which is under contract.",
             "contract-based deductive verification: ghost byte streams for reader and hasher, loop invariants, call-site assertions at the commit points, ghost acknowledgement set"),
         "C02": (
             "Deductive proof of what the read path relies on: casblob.readHeader accepts a header only if it is well formed (at least two offsets, strictly increasing and non-negative, "
             "positive logical size, non-zero chunk size and the chunk count matching the logical size for zstd) for all header contents; the two readers cannot divide by zero, index or slice out of "
             "range for any accepted header, any offset in range and any decoded first-chunk length; diskCache.get / availableOrTryProxy pass the requested size and offset unchanged to the reader, answer a hit only with the "
-            "indexed logical size when it agrees with the requested one, reject offsets outside [0,size), and drop (not serve) entries whose file fails validation.",
-            TRUST + "Byte contents are not modelled: equality of delivered and stored bytes rests on the assumed zstd codec and on the arithmetic proved here. HTTP/gRPC read handlers in server/ are not under contract yet.",
+            "indexed logical size when it agrees with the requested one, reject offsets outside [0,size), and drop (not serve) entries whose file fails validation."
+            " ByteStream.Read (verified as a whole, including absence of panics): asks the cache for exactly the parsed digest, size and read_offset (0 <= offset <= size), and the payload bytes handed to Send never exceed a non-zero read_limit, "
+            "on every return path including errors (ghost byte counter, loop invariant); getBlobData asks for the CAS blob with the stated size from offset 0.",
+            TRUST + "Byte contents are not modelled: equality of delivered and stored bytes rests on the assumed zstd codec and on the arithmetic proved here. BatchReadBlobs, GetTree's decoding and the HTTP GET body copy are not under contract.",
             "contract-based deductive verification: header well-formedness postcondition, safety obligations over symbolic headers, call-site assertions"),
         "C08": (
             "Deductive proof of the write ordering the crash argument rests on: in casblob.WriteAndClose the header is written first with an all-zero table except the first slot (seven binary.Write calls, counted), the chunk table "
@@ -33,8 +37,11 @@ def claims(TRUST):
             "No-panic sweep: for EVERY function under contract (all properties; the list is in the evidence) the generated safety obligations - nil dereference, index and slice bounds, division by zero, failed type assertion, "
             "make() size, nil-map write, negative shift - are discharged for all inputs satisfying the function's precondition, and every caller under contract establishes that precondition. Resource balance: every function "
             "that takes diskCache.mu releases it on every return path; Put/get return every reserved byte and remove or adopt every temp file on every path; validate.ActionResult rejects nil elements before they are dereferenced "
-            "(the obligations that exposed the header-validation and short-first-chunk panics fixed in /repo).",
-            TRUST + "Covers the functions under contract only (disk layer, casblob, validators, tempfile, sha256verifier, BatchUpdateBlobs); most gRPC/HTTP handlers, goroutine and connection lifetimes, and termination are NOT decided.",
+            "(the obligations that exposed the header-validation and short-first-chunk panics fixed in /repo)."
+            " File ownership of the casblob readers: on every return path the file is either closed exactly once or owned by the returned reader (exposed an unclosed file on a seek error, fixed); GetTree's recursion tolerates stored Directory "
+            "blobs with missing digests (exposed a nil dereference, fixed).",
+            TRUST + "Covers the functions under contract only (listed in the evidence: disk layer, casblob, validators, tempfile, sha256verifier, config validation, auth interceptors, and the gRPC/HTTP handlers named in the other claims); functions marked nosafety "
+            "(CacheHandler, GetActionResult, fetchItem, the Write function literals) are excluded from the sweep; goroutine and connection lifetimes and termination are NOT decided.",
             "contract-based deductive verification: automatically generated safety obligations for every instruction of every function under contract"),
         "C13": (
             "Deductive proof that the request handler behind each authentication layer is invoked only after the layer's check: gRPC basic-auth interceptors (unary and stream) call the handler only for the health method, for one of "
@@ -42,16 +49,27 @@ def claims(TRUST):
             "htpasswd entry exists and matches (allowed() is exact); the mTLS interceptors call it only after checkGRPCClientCert returned nil in the same invocation, which implies a non-empty verified chain; HTTP hasValidClientCert "
             "accepts only a non-empty verified chain and VerifyClientCertHandler's function literal forwards only after it; unauthenticatedReadWrapper's function literal forwards without credentials only GET and HEAD; and startHttpServer "
             "registers for /status, /metrics and / handlers that carry the authentication wrapper in every configuration with authentication configured (all combinations of htpasswd / LDAP / client CA / allow_unauthenticated_reads / "
-            "idle timeout / endpoint metrics), and hands the client-certificate flags to the cache handler exactly as configured - the obligation that exposed the unauthenticated /status fixed in /repo.",
+            "idle timeout / endpoint metrics), and hands the client-certificate flags to the cache handler exactly as configured - the obligation that exposed the unauthenticated /status fixed in /repo."
+            " Inside httpCache.CacheHandler every cache read happens only after a successful client-certificate check when checkClientCertForReads is set, and every Put only after one when checkClientCertForWrites is set.",
             TRUST + "ASSUMED: go-http-auth (JustCheck, CheckAuth, CheckSecret, htpasswd parsing), the grpc peer / TLS state, that the metrics middleware and the listed forwarding closures forward to the handler they wrap "
-            "(authWrapped is an uninterpreted predicate on function values). NOT under contract: the client-certificate checks inside httpCache.CacheHandler, startGrpcServer's choice of interceptors, LDAP.",
+            "(authWrapped is an uninterpreted predicate on function values). NOT under contract: startGrpcServer's choice of interceptors, LDAP; the no-panic obligations of CacheHandler are assumed (nosafety).",
             "contract-based deductive verification: call-site assertions at every invocation of a wrapped handler, ghost check counters, function-value identities with uninterpreted wrapper predicates, SSA check of a constant map"),
         "C15": (
             "Deductive proof of the key-space plumbing that is under contract: cache.TransformActionCacheKey returns the key unchanged for an empty instance name and otherwise the hex SHA-256 of key bytes followed by instance bytes "
             "(abstract byte streams; distinct inputs giving distinct outputs is collision resistance, not proved); grpcServer.UpdateActionResult stores under exactly that key when mangling is on and under the plain hash when it is off, "
-            "in key space AC; FileLocationBase/FileLocation and the index key put the key space into every file name and index key (kind-prefixed lookup keys, ac.v2/cas.v2/raw.v2 directories); diskCache.get serves a zstd read only from the CAS.",
-            TRUST + "NOT under contract: GetActionResult and the HTTP handler's use of the transformed key and of RAW vs AC, so 'identically over HTTP and gRPC' is not decided.",
+            "in key space AC; FileLocationBase/FileLocation and the index key put the key space into every file name and index key (kind-prefixed lookup keys, ac.v2/cas.v2/raw.v2 directories); diskCache.get serves a zstd read only from the CAS."
+            " grpcServer.GetActionResult looks up under the same key function; httpCache.CacheHandler parses r.URL.Path (pinned regular expression), mangles only AC/RAW keys and only with mangling on, passes the parsed key space and the (mangled) "
+            "hash unchanged to every cache call, serves zstd only from the CAS and sends validated-AC requests only to the validated path; parseRequestURL maps ac/ to the validated or the raw key space according to validate_ac only.",
+            TRUST + "Both front ends are proved to use TransformActionCacheKey with (hash, instance) as parsed; that HTTP path prefix and gRPC instance_name parse to the same instance string is not decided.",
             "contract-based deductive verification: functional postcondition over abstract byte streams, call-site assertions on the key passed to the cache"),
+        "C16": (
+            "Deductive proof of the obligations that are local to one function of the ByteStream upload path: parseWriteResource / parseReadResource return, on success, a non-negative size, a well-formed hash (64 characters, or the empty-blob "
+            "hash for size 0) and the compression named in the resource (and cannot panic on any resource name); in the receive loop of Write (a function literal) the resource name is parsed from the first message only, the existence probe is made "
+            "in the first iteration with exactly the parsed CAS digest, the 'non-zero write_offset' refusal is issued only after that probe answered 'absent', and payload is piped on only after both; the writer goroutine hands exactly the parsed "
+            "digest and size to the cache in key space CAS; QueryWriteStatus makes one probe with the parsed digest and reports complete exactly when it is found, with the full size, and 0 / incomplete otherwise.",
+            TRUST + "NOT decided: everything that depends on what travels over the channels between the two goroutines and the handler (committed_size of a successful Write, early return when the blob exists, failure on a changed resource name or "
+            "wrong byte count reaching the client, 'stores nothing' on failure) - channel contents and goroutine interleavings are not modelled, and the no-panic obligations of the two function literals are assumed (nosafety).",
+            "contract-based deductive verification: call-site assertions inside the function literals, ghost probe counter, functional postconditions of the parsers"),
         "C19": (
             "Deductive proof of the refusal half of the property for the effective configuration: whenever config.validateConfig returns nil, the set-ups the property lists are absent - dir set and max_size > 0, storage mode and zstd "
             "implementation from the allowed sets, at most one proxy backend (counted over all five), http_address and (when enabled) grpc_address either a unix:// path that is not empty or accepted by net.SplitHostPort, HTTP and gRPC TCP "
@@ -64,8 +82,10 @@ def claims(TRUST):
             "Deductive proof that what this build writes and reads is the published v2 layout: header.write emits exactly seven little-endian fields in the published order and widths (magic 0x184D2A50 as uint32, frame size "
             "uint32 = 21 + 8*len(offsets), logical size int64, compression uint8, chunk size uint32, offset count int64, offsets []int64) - call-site obligations on the dynamic type and value of every binary.Write argument; "
             "header.size() = 29 + 8*len(offsets); WriteAndClose builds the header with the declared size, 1 MiB chunks and ceil(size/1MiB)+1 offsets and rewrites the table at byte 29; readHeader accepts exactly the well-formed headers "
-            "and the readers use the header's own chunk size; FileLocationBase/FileLocation produce the published names for all kinds (uninterpreted path/format functions pin format string, order and pieces).",
-            TRUST + "NOT under contract: the file-name parser in load.go, backend object naming in s3/azblob/http/grpc proxies, byte-level zstd framing.",
+            "and the readers use the header's own chunk size; FileLocationBase/FileLocation produce the published names for all kinds (uninterpreted path/format functions pin format string, order and pieces)."
+            " The file-name pattern accepted by the loader, the two-hex-digit directory patterns, the hash pattern and the HTTP resource pattern are pinned literally (SSA check); s3 / azblob object keys (v1 and v2, with and without prefix) and the "
+            "HTTP backend's request URLs are proved equal to the published forms; EntryKind.String/DirName are exact.",
+            TRUST + "NOT under contract: what the loader does with a matched file name, grpc proxy resource names, byte-level zstd framing.",
             "contract-based deductive verification: call-site assertions on serialisation calls, functional postconditions on naming functions"),
     }
 
@@ -74,6 +94,4 @@ na_reasons = {
     "C09": "every sentence of the property is about file-system histories across a restart (which files exist before and after loadExistingFiles / the layout migrations, their access times and order of eviction); "
            "the contract engine has no model of directory contents, and contracts over os.Rename/Remove/ReadDir would be an assumed file-system model rather than facts about the code; the only per-function piece "
            "(file-name regexp in load.go against FileLocation) needs regular-expression reasoning that the SMT encoding does not have. See DESIGN.md 10.6.",
-    "C16": "the guarantees are about gRPC message sequences handled by a receive loop that talks to a writer goroutine through an io.Pipe and two channels (first message, resource name changing mid-stream, early return when the blob exists, "
-           "committed_size); channel contents and goroutine interleavings are outside what the contract engine models (no contract within reach can state them), and the small parsing helpers alone decide no sentence of the property. See DESIGN.md 10.6.",
 }
